@@ -159,6 +159,11 @@ macro_rules! impl_inner_observer {
       fn complete(self) {
         let mut inner = self.0.rc_deref_mut();
         if let Some(data) = inner.as_mut() {
+          if data.observer.is_finished() {
+            // nobody is listening any more: the inner observables still
+            // waiting for a free slot are never started.
+            data.subscribe_tasks.clear();
+          }
           if let Some(task) = data.subscribe_tasks.pop_front() {
             // release the state cell first: a queued inner observable that
             // emits synchronously re-enters it while being subscribed.
